@@ -279,7 +279,7 @@ example (e : Bytes) (x : RRest) :
       dispatch .none (some exLocalHost) (slash :: (exBucket ++ slash :: e)) x :=
   (C01_dispatch_style_independent (.multi [exDomain2, exDomain]) .none (some exLocalHost) exDomain exDomainMixed
     exBucket e
-    (Or.inr ⟨_, rfl, pairwiseCI_of_lower (by decide) ((multiNew_ok _ _).mp rfl).2.2.2, by decide, rfl⟩)
+    (Or.inr ⟨_, rfl, by decide, rfl⟩)
     (by decide) (by decide) (by decide) (Or.inr ⟨_, rfl, by decide, Or.inl rfl⟩)
     (by decide) (by decide) (by decide) x).2
 
